@@ -562,6 +562,10 @@ fn run(scn: &Scn, ctx: &mut Ctx) -> Result<(), Violation> {
     // Enter) have been typed since the field was last empty; None = not tracked (editing keys,
     // completion, history, a notification swallowing the key, control characters)
     let mut typed: Option<String> = Some(String::new());
+    // ... extended to a reference line editor: (text, cursor) under characters, Left/Right,
+    // Home/End, Backspace/Delete; history and completion keys end the tracking until the field is
+    // empty again (their result depends on history / directory contents the reference does not model)
+    let mut cursor: usize = 0;
     for (i, e) in scn.events.iter().enumerate() {
         match e {
             Ev::Line(l) => {
@@ -676,8 +680,36 @@ fn run(scn: &Scn, ctx: &mut Ctx) -> Result<(), Violation> {
                 if notif_before || c.is_control() {
                     typed = None;
                 } else if let Some(t) = typed.as_mut() {
-                    t.push(*c);
+                    let mut cs: Vec<char> = t.chars().collect();
+                    let at = cursor.min(cs.len());
+                    cs.insert(at, *c);
+                    cursor = at + 1;
+                    *t = cs.into_iter().collect();
                 }
+            }
+            Ev::Key(k) if typed.is_some() && !notif_before && matches!(k.as_str(), "Left" | "Right" | "Home" | "End" | "Backspace" | "Delete") => {
+                let t = typed.as_mut().unwrap();
+                let mut cs: Vec<char> = t.chars().collect();
+                cursor = cursor.min(cs.len());
+                match k.as_str() {
+                    "Left" => cursor = cursor.saturating_sub(1),
+                    "Right" => cursor = (cursor + 1).min(cs.len()),
+                    "Home" => cursor = 0,
+                    "End" => cursor = cs.len(),
+                    "Backspace" => {
+                        if cursor > 0 {
+                            cs.remove(cursor - 1);
+                            cursor -= 1;
+                        }
+                    }
+                    _ => {
+                        if cursor < cs.len() {
+                            cs.remove(cursor);
+                        }
+                    }
+                }
+                *t = cs.into_iter().collect();
+                ctx.cov.probe("editor-reference:editing-key");
             }
             Ev::Mouse | Ev::Resize(..) | Ev::ResizeEvent(..) | Ev::Idle(_) => {}
             _ => typed = None,
@@ -692,7 +724,7 @@ fn run(scn: &Scn, ctx: &mut Ctx) -> Result<(), Violation> {
                         "typed-text",
                         i,
                         format!(
-                            "{}: after typing {} printable characters into the empty field it holds {} characters (first difference at character {}): a submitted line would not be the line that was typed",
+                            "{}: after typing / editing (characters, Left/Right, Home/End, Backspace/Delete from the empty field) the reference editor holds {} characters, the field {} (first difference at character {}): a submitted line would not be the line that was typed",
                             what, t.chars().count(), now.chars().count(), k
                         ),
                     ));
@@ -700,6 +732,7 @@ fn run(scn: &Scn, ctx: &mut Ctx) -> Result<(), Violation> {
             }
             if now.is_empty() {
                 typed = Some(String::new());
+                cursor = 0;
             }
         }
         if !quit {
